@@ -396,6 +396,11 @@ theorem format_plain (a : LB) (ha : a.wf) (t : Option Char) (r : Nat)
   rcases ht with h | h | h | h <;> cases h <;>
     simp [IntB.format, hm, toStrRadix, LB.isNegative]
 
+/-- the documented guarantee `format(x, "") == to_str(x)` -/
+theorem format_empty_eq_toStr (a : LB) (ha : a.wf) : IntB.format a {} = IntB.toStr a := by
+  have := (format_plain a ha none 10 (Or.inl rfl)).1
+  rw [this]; rfl
+
 /-! ### the library functions written in xray (`include.rs`), hand model `XrayModel/IntLib.lean` -/
 
 /-- `gcd(a, b)` terminates and is the greatest common divisor (non-negative; `Int.gcd` is `Nat.gcd` of the magnitudes) -/
